@@ -102,3 +102,64 @@ CHECKS["C19"] = {
                    "(structure sharing through copies included), each step compared with a boring reference model."),
     "level_note": "Depth and key alphabets bounded as stated; histories are not merged so hidden sharing state cannot hide behind a state hash.",
 }
+
+_E3_ASSUME = [
+    "witness sets are subsets of gamma (deterministic truncation to 2048 valuations, |v|<=1e6), so a reported escape is a genuine counterexample",
+    "concrete semantics of DESIGN.md §1.3; udiv/urem/lshr only on non-negative operands; shifts 0..16",
+    "narrowing only applied when the domain's own inclusion test says the pair is decreasing",
+    "(domain, operation) pairs listed in known_unsupported.tsv abort by design and are pruned (counted in skipped_unsupported)",
+]
+
+CHECKS["C03"] = {
+    "level": "model_checking",
+    "technique": "stateless exhaustive exploration of all abstract-domain operation histories up to a depth on the real domains, each state checked against witness sets of concrete valuations",
+    "design_ref": "DESIGN.md §2 C03",
+    "jobs": [{"bin": "e3_hist", "args": ["--mode", "dfs"], "deadline": {"quick": 420, "thorough": 3000}}],
+    "rule": ("for each of 35 domain instantiations (intervals, constants, signs, sign-constants, interval-congruences, sparse/split DBM, "
+             "split octagons, disjunctive intervals, term domains x3, uf, fixed-tvpi, flat boolean x2, reduced product, powerset, value "
+             "partitioning, lookahead widening, packing, array smashing x3, array adaptive x4, region x7) and each parameter configuration "
+             "(quick: default + every single-flag flip; thorough: full product, e.g. 16 closure settings for zones and octagons, 32 region settings): "
+             "ALL operation sequences over two registers from the extended alphabet (~120 ops: assignments incl. self-referencing and zero "
+             "coefficients, every arithmetic/bitwise op with variable and constant operands, select, 26 assumes incl. non-unit/negative "
+             "coefficients and 2^31, forget/project/rename/expand, normalize/minimize, join/meet/widening(+thresholds)/narrowing, copies, "
+             "swap, boolean ops) to depth 2 (3 thorough) and from the core alphabet (~45 ops) to depth 3 (4). After every step every witness "
+             "valuation must satisfy the exported constraints (M1), a disjunct of the disjunctive export (M2), the per-variable intervals of at() "
+             "and operator[] (M3), non-bottomness (M4), every entailed query constraint (M5), and refinement with v==sigma(v) must not be bottom (M7). "
+             "states = histories executed; distinct_nontrivial = distinct printed values at the deepest level."),
+    "assumptions": _E3_ASSUME,
+    "level_text": ("Every operation history inside the stated alphabet/depth is executed on the real domain objects (nothing merged, so lazily "
+                   "normalised or shared representations cannot hide behind a state hash) and confronted with concrete witnesses."),
+    "level_note": "Bounded depth and value box {-2..2}^3 (+{0,1}^2 booleans); Apron/Elina/LDD/PPLite domains are not built in this image.",
+}
+
+CHECKS["C04"] = {
+    "level": "model_checking",
+    "technique": "exhaustive history exploration plus all ordered pairs of a pool of reachable values, inclusion and lattice operations checked against witness sets",
+    "design_ref": "DESIGN.md §2 C04",
+    "jobs": [{"bin": "e3_hist", "args": ["--mode", "dfs"], "deadline": {"quick": 300, "thorough": 2400}},
+             {"bin": "e3_hist", "args": ["--mode", "pairs"], "deadline": {"quick": 300, "thorough": 2400}}],
+    "rule": ("(a) the C03 history space: at every node both ordered register pairs are tested: reflexivity, bottom<=a, a<=top, "
+             "`a<=b` yes => every witness of a passes M1-M4 against b, make_top/make_bottom/set_to_* agree with is_top/is_bottom; "
+             "(b) per domain/config a pool of distinct values reachable by core histories of depth <=2 (incl. values over different variable "
+             "sets through forget/rename), capped at 250 (600 thorough), ALL ordered pairs: inclusion soundness, join contains both witness "
+             "sets and is above both operands by the domain's own inclusion test, meet contains the common witnesses, widening contains both."),
+    "assumptions": _E3_ASSUME,
+    "level_text": "Complete enumeration of histories/pairs within the stated bounds on the real domains.",
+    "level_note": "Pool cap and depth bound as stated (reported in evidence max.pool.*).",
+}
+
+CHECKS["C16"] = {
+    "level": "model_checking",
+    "technique": "exhaustive history exploration where every node works on copies: parents re-observed after their subtree, queries/normalize/minimize compared by exported meaning, and direct/abstract_domain/abstract_domain_ref flavours run in lock step",
+    "design_ref": "DESIGN.md §2 C16",
+    "jobs": [{"bin": "e3_hist", "args": ["--mode", "dfs"], "deadline": {"quick": 300, "thorough": 2400}},
+             {"bin": "e3_hist", "args": ["--mode", "lockstep"], "deadline": {"quick": 300, "thorough": 2400}}],
+    "rule": ("the C03 history space; every child operates on a copy (copy construction) of its parent; after the whole subtree of a node "
+             "returned, the parent's printed form and the solution set of its exported constraints/intervals over the value box must be unchanged "
+             "(no sharing leak); query_all / normalize / minimize must leave that solution set unchanged; lock step: the same history on the "
+             "direct domain type, on abstract_domain<V>(D) and on abstract_domain_ref<V>(D) must give equal bottomness, intervals and solution sets "
+             "after every step (extended alphabet, depth 2 / 3)."),
+    "assumptions": _E3_ASSUME + ["meaning = solution set of exported linear constraints and intervals over the box; widening results are only required to be sound"],
+    "level_text": "Complete enumeration of histories within the stated bounds on the real domains and wrappers.",
+    "level_note": "Semantic (not structural) comparison; representation differences that do not change the exported meaning are not flagged.",
+}
